@@ -302,10 +302,6 @@ def nestedOK [BEq K] {d : Nat} : Vec K d → List (Vector Bool d × Vec K d) →
   | u, sp :: sps =>
     (List.finRange d).all (fun p => sp.1[p] || (u[p] == 0 && sp.2[p] == 0)) && nestedOK sp.2 sps
 
-/-- The windows are real (fixed by the conjugation) — Tukey windows are. -/
-def windowsReal [BEq K] {d : Nat} (cj : K → K) (sps : List (Vector Bool d × Vec K d)) : Bool :=
-  sps.all fun sp => (List.finRange d).all fun p => cj sp.2[p] == sp.2[p]
-
 /-- A monochromatic wavefront: field and wavelength. -/
 structure Wf (K : Type) (n : Nat) where
   E : Vec K n
